@@ -2,7 +2,8 @@
    `set_iteration_sites` is regenerated from generator.py on every run (Gen/SetIter_gen.v): every loop / comprehension over a
    set-typed value with its classification.  The only state compile() may touch is the adjacency cache (Model/Conc.v, C19). *)
 From Coq Require Import String List Bool Permutation.
-Require Import V.Model.Determ V.Gen.SetIter_gen V.Proofs.C15_proofs V.Model.Conc V.Gen.AdjProg_gen V.Proofs.C19_proofs.
+Require Import V.Model.Determ V.Gen.SetIter_gen V.Proofs.C15_proofs V.Model.Conc V.Gen.AdjProg_gen V.Proofs.C19_proofs
+               V.Model.Effects V.Gen.Effects_gen V.Proofs.C15_effects_proofs.
 Import ListNotations.
 
 (* generated obligation: no order-sensitive loop walks a raw set (or a set sorted by a non-total key) *)
@@ -19,6 +20,21 @@ Proof. exact emit_order_free. Qed.
 Theorem C15_history_free : forall (A : Type) (good a0 empty : A) (n : nat) (sched : list nat) l,
   In l (snd (run A good empty adjacency_prog sched (init A a0 n))) -> Forall (fun x => x = good) (reads A l).
 Proof. intros A good a0 empty n sched l. replace adjacency_prog with fixed_prog by reflexivity. apply fixed_safe. Qed.
+
+(* no other state: Gen/Effects_gen.v lists, regenerated from the source on every run, every write reachable from the query entry points that could
+   outlive a call (attributes / items of anything reached from self, module-level containers, functools caches, the caller's own argument lists).
+   Each of them is a write of the state C15_history_free is about (the adjacency cache and its flag) or one of the two reviewed call-local writes:
+   compile / explain / query / sql keep nothing else from one call to the next and change nothing the caller or the registry owns. *)
+Theorem C15_effects_closed : effects_closed effects = true.
+Proof. vm_compute. reflexivity. Qed.
+Theorem C15_effects_accounted : forall e, In e effects -> In e (modelled_writes ++ call_local_writes).
+Proof. exact (effects_closed_spec effects C15_effects_closed). Qed.
+Example C15_effects_nonvacuous :
+  effects_closed [("sidemantic/core/semantic_graph.py:SemanticGraph.fanout_models", "store", "self._fanout_cache[]")] = false /\
+  effects_closed [("sidemantic/core/preagg_matcher.py:PreAggregationMatcher._extract_filter_columns", "global", "_FILTER_COLUMNS_CACHE _FILTER_COLUMNS_CACHE[]")] = false /\
+  effects_closed [("sidemantic/sql/generator.py:_parse_condition", "decorator", "lru_cache")] = false /\
+  effects_closed [("sidemantic/sql/generator.py:SQLGenerator.generate", "argument", "filters via _prepare_filters(filters)")] = false.
+Proof. exact unaccounted_examples. Qed.
 
 (* regression anchors *)
 Example C15_raw_iteration_refuted : emit (fun s => s) ["orders"; "customers"]%string <> emit (fun s => s) ["customers"; "orders"]%string.
